@@ -48,7 +48,9 @@ RULE = ("case = one generated meta-model (<= 6 classes in chains/branches, <= 3 
         "primitives, length bounds with all six operators, both operand orders, constants "
         "-2..70, guards on the same / another property, pattern calls, constant-set "
         "membership, unrecognised forms; constrained-primitive chains of depth 3..5 declared in "
-        "shuffled, non-topological text order, also after the classes using them); non-trivial = at least one (class, property) whose "
+        "shuffled, non-topological text order, also after the classes using them; constrained "
+        "primitives with two parents and diamonds of classes whose branches constrain the same "
+        "value, compatible or excluding each other); non-trivial = at least one (class, property) whose "
         "expected constraint combines >= 2 recognised invariants or crosses an inheritance "
         "edge, or an expected error; distinct by model text")
 
@@ -408,6 +410,36 @@ def corpus() -> List[dict]:
     m = _mm([_cls("C0", [], [["b", ["our", "P2"]]], [])], cprims=chain2, patterns=[["F0", "^a+$"]])
     m["decl_order"] = ["P2", "P1", "P0", "C0"]
     out.append(m)
+    # several parents (seeded change C02-2: each parent was checked against the child's OWN
+    # constraints instead of the ones accumulated from the earlier parents, so two parents
+    # excluding each other violated the precondition of LenConstraint)
+    def cpj(inv_a, inv_b, own, grand=None):
+        cps = []
+        if grand is not None:
+            cps.append({"name": "PG", "base": "str", "parents": [], "invs": [grand]})
+        par = ["PG"] if grand is not None else []
+        cps += [{"name": "P0", "base": "str", "parents": list(par), "invs": [inv_a]},
+                {"name": "P1", "base": "str", "parents": list(par), "invs": [inv_b]},
+                {"name": "P2", "base": "str", "parents": ["P0", "P1"], "invs": own}]
+        return _mm([_cls("C0", [], [["b", ["our", "P2"]]], [])], cprims=cps,
+                   patterns=[["F0", "^a+$"]])
+    out.append(cpj(_len("self", ">=", 5), _len("self", "<=", 3), []))
+    out.append(cpj(_len("self", "<=", 3), _len("self", ">=", 5), [_len("self", "<=", 9)]))
+    out.append(cpj(_len("self", ">=", 2), _len("self", "<=", 9), [pat_self("F0")]))
+    out.append(cpj(_len("self", ">=", 2), _len("self", "<=", 9), [], grand=_len("self", "<", 7)))
+    out.append(cpj(_len("self", ">=", 8), _len("self", "<=", 9), [], grand=_len("self", "<", 7)))
+    # ... and the same for classes: a diamond whose branches constrain the inherited property
+    def diamond(inv_l, inv_r, own, consts=()):
+        return _mm([_cls("C0", [], [["b", STR]], [_len("b", ">=", 1)]),
+                    _cls("C1", ["C0"], [], inv_l), _cls("C2", ["C0"], [], inv_r),
+                    _cls("C3", ["C1", "C2"], [], own)], consts=consts,
+                   patterns=[["F0", "^a+$"]])
+    out.append(diamond([_len("b", ">=", 5)], [_len("b", "<=", 3)], []))
+    out.append(diamond([_len("b", ">=", 5)], [_len("b", "<=", 9)], [_len("b", "<", 8, "L")]))
+    out.append(diamond([isin("b", "S0"), _len("b", ">=", 2)],
+                       [isin("b", "S1"),
+                        {"e": ["call", "F0", [G.self_prop("b")]], "tags": [["pat", "b", "F0", None]]}],
+                       [], consts=[["S0", "str", ["A", "B", "C"]], ["S1", "str", ["C", "B", "D"]]]))
     return out
 
 
